@@ -18,8 +18,15 @@ pub struct GraphCase {
     /// random edges (i mod n, j mod n, raw weight)
     pub edges: Vec<(u8, u8, u8)>,
     /// 0 unweighted, 1 positive dyadic k/4, 2 non-negative dyadic with zeros, 3 tie-rich {1,2},
-    /// 4 positive non-dyadic floats
+    /// 4 positive non-dyadic floats, 5 tiny dyadic (k+1)*2^-40, 6 large dyadic (k+1)*2^30,
+    /// 7 large non-dyadic (hundreds to thousands)
     pub wmode: u8,
+    /// when > 0 the fields n / shape / edges are ignored and a sparse graph with this many nodes is
+    /// generated procedurally from `big_seed` (ring + 2 chords per node; single-edge, no loops)
+    #[serde(default)]
+    pub big_n: u16,
+    #[serde(default)]
+    pub big_seed: u64,
 }
 
 #[derive(Clone, Debug)]
@@ -46,7 +53,10 @@ pub fn decode_weight(wmode: u8, r: u8) -> f64 {
         1 => ((r % 32) as f64 + 1.0) / 4.0,
         2 => ((r % 8) as f64) / 4.0,
         3 => 1.0 + (r % 2) as f64,
-        _ => 0.1 + ((r % 64) as f64) * 0.137,
+        4 => 0.1 + ((r % 64) as f64) * 0.137,
+        5 => ((r % 32) as f64 + 1.0) * (2.0f64).powi(-40),
+        6 => ((r % 32) as f64 + 1.0) * (2.0f64).powi(30),
+        _ => 100.1 + ((r % 32) as f64) * 101.2,
     }
 }
 
@@ -163,6 +173,19 @@ impl GraphCase {
     }
 
     pub fn norm(&self) -> NormGraph {
+        if self.big_n > 0 {
+            let mut ng = crate::oracle::procedural_graph(self.big_n as usize, self.big_seed, self.kind & 1 == 1, self.wmode != 0);
+            // keep the kind's flags (the generated edges never need them)
+            ng.multi = self.kind & 2 == 2;
+            ng.loops = self.kind & 4 == 4;
+            if self.wmode != 0 {
+                // weights in the case's own weight mode
+                for (k, e) in ng.edges.iter_mut().enumerate() {
+                    e.2 = decode_weight(self.wmode, (crate::core::mix(self.big_seed, k as u64) % 251) as u8);
+                }
+            }
+            return ng;
+        }
         let s = self.spec();
         let n = self.n as usize;
         let mut edges: Vec<(usize, usize, f64)> = vec![];
@@ -251,7 +274,7 @@ pub fn graph_strategy(
                 vec((any::<u8>(), any::<u8>(), any::<u8>()), 0..=me),
             )
         })
-        .prop_map(|(kind, n, wmode, perm, shape, edges)| GraphCase { kind, n, perm, shape, edges, wmode })
+        .prop_map(|(kind, n, wmode, perm, shape, edges)| GraphCase { kind, n, perm, shape, edges, wmode, big_n: 0, big_seed: 0 })
         .boxed()
 }
 
@@ -286,7 +309,7 @@ pub fn enumerate_small(kind: u8, n: u8, wmode: u8) -> Vec<GraphCase> {
             .filter(|(k, _)| mask >> k & 1 == 1)
             .map(|(k, (i, j))| (*i, *j, (k as u8 % 3) * 3 + 3))
             .collect();
-        out.push(GraphCase { kind, n, perm: if mask % 2 == 1 { 7 } else { 0 }, shape: 0, edges, wmode });
+        out.push(GraphCase { kind, n, perm: if mask % 2 == 1 { 7 } else { 0 }, shape: 0, edges, wmode, big_n: 0, big_seed: 0 });
     }
     out
 }
@@ -298,4 +321,23 @@ pub fn ng_from_graph<A: Clone + Send + Sync>(g: &graphrs::Graph<String, A>) -> N
     let edges: Vec<(usize, usize, f64)> = g.get_all_edges().iter().map(|e| (idx(&e.u), idx(&e.v), e.weight)).collect();
     let weighted = !edges.is_empty() && edges.iter().all(|e| !e.2.is_nan());
     NormGraph { directed: g.specs.directed, multi: g.specs.multi_edges, loops: g.specs.self_loops, n: names.len(), order: (0..names.len()).collect(), names, edges, weighted }
+}
+
+/// graphs whose node count sits around a power of two (or another plausible internal threshold),
+/// up to the largest representable size: size-dependent code paths switch behaviour there
+pub const BOUNDARY_SIZES: [u8; 18] = [15, 16, 17, 20, 21, 31, 32, 33, 63, 64, 65, 100, 127, 128, 129, 192, 254, 255];
+
+pub fn boundary_graph_strategy(kinds: &'static [u8], max_edges: fn(usize) -> usize, wmodes: &'static [u8], shape_weight: u32, max_n: u8) -> BoxedStrategy<GraphCase> {
+    let sizes: Vec<u8> = BOUNDARY_SIZES.iter().copied().filter(|n| *n <= max_n).collect();
+    proptest::sample::select(sizes).prop_flat_map(move |n| graph_strategy(kinds, n, n, max_edges, wmodes, shape_weight)).boxed()
+}
+
+/// procedurally generated large graphs: log-uniform node count in lo..=hi
+pub fn big_graph_strategy(kinds: &'static [u8], lo: u16, hi: u16, wmodes: &'static [u8]) -> BoxedStrategy<GraphCase> {
+    (proptest::sample::select(kinds), 0u16..1000, any::<u64>(), proptest::sample::select(wmodes))
+        .prop_map(move |(kind, r, big_seed, wmode)| {
+            let n = (lo as f64 * (hi as f64 / lo as f64).powf(r as f64 / 999.0)).round() as u16;
+            GraphCase { kind, n: 0, perm: 0, shape: 0, edges: vec![], wmode, big_n: n.max(1), big_seed }
+        })
+        .boxed()
 }
